@@ -16,3 +16,10 @@ pub proof fn vx_lemma_sh9(i: usize) ensures i >> 9 == i / 512, i & 511 == i % 51
 { assert(i >> 9 == i / 512 && i & 511 == i % 512) by (bit_vector); }
 pub proof fn vx_lemma_and3(x: u8) ensures x & 3 <= 3, x <= 3 ==> x & 3 == x
 { assert(x & 3 <= 3) by (bit_vector); assert(x <= 3 ==> x & 3 == x) by (bit_vector); }
+
+/// values of the shifted constants used in the repository
+pub proof fn vx_lemma_consts()
+    ensures (1usize << 12) == 4096, (1usize << 13) == 8192, (1usize << 16) == 65536, (1usize << 43) == 0x80000000000,
+{
+    assert((1usize << 12) == 4096 && (1usize << 13) == 8192 && (1usize << 16) == 65536 && (1usize << 43) == 0x80000000000) by (bit_vector);
+}
